@@ -166,6 +166,29 @@ def run(res, tier, rng, table_diffs=()):
         res.seen("D" + src)
         if src != "\"a\\\\\" 1" and not r.startswith("err Syntax"):
             res.violation("part of the input was silently dropped", dict(kind="dropped", input=src, impl=r))
+    # a backslash means something ONLY inside a string literal and ONLY before " \\ n t: a comment that ends in backslashes ends at
+    # its line end all the same; every other escape spelling known from other languages denotes exactly the characters written
+    for k in (1, 2, 3):
+        bs = "\\" * k
+        for src, want in [("1 // c:" + bs + "\n+ 2", "ok i:3"), ("stel x = 1 // p" + bs + "\nx = 2\nx", "ok i:2"), ("1 //" + bs + "\n+ 2", "ok i:3"),
+                          ("// a" + bs + "\n// b" + bs + "\n7", "ok i:7"), ("1 // \"" + bs + "\n+ 2", "ok i:3")]:
+            r = core.impl(["eval 1000 " + hx(src)])[0]
+            res.seen("D" + src)
+            res.count("comment-backslash")
+            if not r.startswith(want):
+                res.violation("a backslash at the end of a comment changed where the comment ends", dict(kind="control", input=src, expected=want, impl=r))
+    foreign = ["\\u{41}", "\\u0041", "\\x41", "\\101", "\\0", "\\r", "\\a", "\\e", "\\N{DEGREE SIGN}", "\\U0001F600", "\\u{1F600}", "\\'", "\\ ", "\\{", "\\}", "\\$", "\\%",
+               "\\u{}", "\\u{zz}", "\\u{41", "\\x4", "\\uD83D", "\\b", "\\f", "\\v", "\\/"] + ["\\" + chr(c) for c in range(33, 127) if chr(c) not in '"\\nt']
+    fa = core.impl(["eval 1000 " + hx('stel s = "%s"; [lengte(s), s[0] == "\\\\", s]' % f) for f in foreign])
+    fm = core.model(["eval 1000 " + hx('stel s = "%s"; [lengte(s), s[0] == "\\\\", s]' % f) for f in foreign])
+    for f, a, m in zip(foreign, fa, fm):
+        res.seen("X" + f)
+        res.count("foreign-escape")
+        n = len(f)
+        want = "ok a:[i:%d b:ja " % n
+        if not a.startswith(want) or a != m:
+            res.violation("an escape spelling that the language does not define was decoded instead of being kept as written",
+                          dict(kind="control", input='stel s = "%s"; [lengte(s), s[0] == "\\\\", s]' % f, expected=want, impl=a, model=m))
     # a NUL (or any other control character) is an ordinary character of the text: inside a comment it is skipped with the
     # comment, inside a string it is part of the string, elsewhere it is rejected — the text after it is never dropped
     for src, want in [("1 // c\x00 d\n+ 2", "ok i:3"), ("1 //\x00\n+ 2", "ok i:3"), ("lengte(\"a\x00b\")", "ok i:3"), ("\"\x00\" == \"\x00\"", "ok b:ja"),
